@@ -2,6 +2,7 @@ import XmppModel.Model.Serve
 import XmppModel.Lemmas.Serve
 import XmppModel.Lemmas.ServeView
 import XmppModel.Lemmas.ServeNested
+import XmppModel.Generated.C08
 /-!
 # C08 — handlers see one element at a time; stream-level input never reaches them
 
@@ -11,6 +12,29 @@ writes, any return value).
 -/
 namespace XmppModel.Props.C08
 open XmppModel XmppModel.Xml XmppModel.Serve
+
+/-! ### tie to the source: what counts as a keep-alive -/
+
+/-- the set of characters the real serve path accepts between top-level elements (regenerated
+on every run by running a real session on every Unicode scalar value) is exactly XML white
+space — tab, line feed, carriage return, space — and that is the model's `isWsChar`: no
+Unicode-only white space (U+00A0, U+0085, U+3000 …), no zero-width character -/
+theorem C08_gen_whitespace :
+    Generated.C08.topWhitespace = some [9, 10, 13, 32] ∧
+    ∀ c : Char, isWsChar c = true ↔ c.toNat ∈ [9, 10, 13, 32] := by
+  refine ⟨by decide, ?_⟩
+  intro c
+  have h : ∀ d : Char, (c == d) = true ↔ c.toNat = d.toNat := by
+    intro d
+    rw [beq_iff_eq]
+    exact Char.toNat_inj.symm
+  simp only [isWsChar, Bool.or_eq_true, h, List.mem_cons, List.not_mem_nil, or_false]
+  have e1 : ' '.toNat = 32 := rfl
+  have e2 : '\t'.toNat = 9 := rfl
+  have e3 : '\r'.toNat = 13 := rfl
+  have e4 : '\n'.toNat = 10 := rfl
+  rw [e1, e2, e3, e4]
+  omega
 
 /-! ### stream-level input never reaches a handler -/
 
